@@ -15,11 +15,14 @@ pub struct BootdevTag {
 }
 
 impl BootdevTag {
+    /// Size of the tag without the padding at the end of the struct.
+    const BASE_SIZE: usize = mem::size_of::<TagHeader>() + 3 * mem::size_of::<u32>();
+
     /// Creates a new tag.
     #[must_use]
     pub fn new(biosdev: u32, slice: u32, part: u32) -> Self {
         Self {
-            header: TagHeader::new(Self::ID, mem::size_of::<Self>() as u32),
+            header: TagHeader::new(Self::ID, Self::BASE_SIZE as u32),
             biosdev,
             slice,
             part,
